@@ -12,9 +12,59 @@ from harness.common import VERIF, Failure, Spec
 ALLOWED = ("EOFError", "ValueError")
 
 
+class _Controller:
+    """what DNSProtocol needs from its controller; collects the messages handed on"""
+
+    def __init__(self):
+        self.msgs = []
+
+    def connectionMade(self, proto):
+        pass
+
+    def connectionLost(self, proto):
+        pass
+
+    def messageReceived(self, m, proto, *a):
+        self.msgs.append(W.show_message_py(m))
+
+
+def chunks(cuts, data: bytes):
+    out = []
+    for k in cuts:
+        if not data:
+            return out
+        if k == 0:
+            out.append(data)
+            return out
+        out.append(data[:k])
+        data = data[k:]
+    if data:
+        out.append(data)
+    return out
+
+
+def _tcp(data: bytes, cuts) -> str:
+    """the TCP path: DNSProtocol.dataReceived over the stream cut into segments"""
+    from twisted.internet.testing import StringTransport
+    from twisted.names import dns
+    ctl = _Controller()
+    p = dns.DNSProtocol(ctl)
+    p.makeConnection(StringTransport())
+    err = "ok"
+    for c in chunks(cuts, data):
+        try:
+            p.dataReceived(c)
+        except Exception as e:          # the class is the observation
+            err = W.exn(e)[2:]
+            break
+    return " ; ".join(ctl.msgs) + "|" + err
+
+
 def impl(case) -> str:
     from twisted.names import dns
     data = bytes.fromhex(case["data"])
+    if case.get("tcp"):
+        return _tcp(data, case["cuts"])
     m = dns.Message()
     try:
         m.fromStr(data)
@@ -32,6 +82,24 @@ def impl(case) -> str:
 
 
 def oracle(case, obs):
+    if case.get("tcp"):
+        err = obs.rsplit("|", 1)[1]
+        first = len(chunks(case["cuts"], bytes.fromhex(case["data"]))[0]) if case["data"] and case["cuts"] else None
+        if err != "ok" and err not in ALLOWED:
+            return Failure(case, f"DNSProtocol.dataReceived raised {err} (first segment of {first} bytes)",
+                           "tcp-length-prefix-split" if err == "TypeError" else "tcp-exception-" + err)
+        data = bytes.fromhex(case["data"])
+        alts = [[]]
+        if len(data) <= 300:
+            alts.append([1] * len(data))
+        alts.append([1])
+        for alt in alts:
+            other = _tcp(data, alt)
+            if other != obs:
+                return Failure(case, f"segmentation changes the result: cuts {case['cuts'][:8]} -> {obs[-60:]}, "
+                                     f"cuts {alt[:4]} -> {other[-60:]}",
+                               "tcp-length-prefix-split" if other.endswith("|TypeError") else "tcp-split-differs")
+        return None
     main, _, edns = obs.partition("#edns:")
     if main.startswith("E:") and main[2:] not in ALLOWED:
         return Failure(case, f"decoding raised {main[2:]}, which the DNS protocols do not treat as a malformed packet",
@@ -109,6 +177,79 @@ def handcrafted():
     return out
 
 
+def chain_packet(n, direction, ending):
+    """an ACYCLIC chain of n compression pointers hanging off the question name (up to ~8170 fit below offset
+    2^14): forward (each pointer targets the next one) or backward; ending in the root label, in a label, in a
+    pointer past the end of the packet (EOFError) or in a pointer back into the chain (ValueError)"""
+    hdr = b"\x12\x34\x01\x00\x00\x01\x00\x00\x00\x00\x00\x00"
+    q = b"\x00\x01\x00\x01"
+    if direction == "forward":
+        base = 18
+        end_off = base + 2 * n
+        nodes = b"".join(_ptr(base + 2 * (i + 1)) for i in range(n))
+        if ending == "zero":
+            tail = b"\0"
+        elif ending == "label":
+            tail = b"\x03end\0"
+        elif ending == "eof":
+            tail = _ptr(0x3FFF)
+        else:
+            tail = _ptr(base + 2 * (n // 2))
+        return hdr + _ptr(base) + q + nodes + tail
+    term = {"zero": b"\0", "label": b"\x03end\0", "eof": _ptr(0x3FFF), "cycle": None}[ending]
+    base = 18 + (len(term) if term is not None else 2)
+    if term is None:
+        term = _ptr(base + 2 * (n // 2))
+    nodes = b"".join(_ptr(18 if i == 0 else base + 2 * (i - 1)) for i in range(n))
+    return hdr + _ptr(base + 2 * (n - 1)) + q + term + nodes
+
+
+def long_chains(sizes):
+    out = []
+    for n in sizes:
+        for direction in ("forward", "backward"):
+            for ending in ("zero", "label", "eof", "cycle"):
+                out.append(chain_packet(n, direction, ending))
+    return out
+
+
+def tcp_stream(rng):
+    """1-3 length-prefixed messages (valid, mutated, wrong length prefix) or raw bytes"""
+    k = rng.random()
+    if k < 0.1:
+        return _rb(rng, rng.choice([0, 1, 2, 3, 5, 14, 40]))
+    out = b""
+    for _ in range(rng.choice([1, 1, 2, 3])):
+        m = W.ref_encode(c32.gen_message(rng, rng.choice(["tiny", "tiny", "small"])))[:600]
+        if rng.random() < 0.3:
+            m = mutate(rng, m)
+        ln = len(m)
+        j = rng.random()
+        if j < 0.1:
+            ln = rng.choice([0, 1, 11, 12, max(0, ln - 1), ln + 1, ln + 7, 65535])
+        out += (ln & 0xFFFF).to_bytes(2, "big") + m
+    if rng.random() < 0.15:
+        out = out[: rng.randrange(len(out) + 1)]
+    return out
+
+
+def tcp_cuts(rng, n):
+    k = rng.random()
+    if k < 0.25:
+        return [1]                                  # a first segment of ONE byte (half a length prefix)
+    if k < 0.35:
+        return [1, 1]
+    if k < 0.45:
+        return [2]
+    if k < 0.55:
+        return [3]
+    if k < 0.7:
+        return [1] * min(n, 400)
+    if k < 0.8:
+        return []
+    return [rng.choice([1, 2, 3, 5, 8, 13, 40]) for _ in range(rng.randrange(1, 12))]
+
+
 def mutate(rng, d: bytes) -> bytes:
     b = bytearray(d)
     for _ in range(rng.choice([1, 1, 2, 3])):
@@ -143,6 +284,17 @@ def mutate(rng, d: bytes) -> bytes:
 
 def corpus():
     cs = [{"data": d.hex(), "edns": True} for d in handcrafted()]
+    cs += [{"data": d.hex(), "edns": False} for d in long_chains((300, 1000, 4000, 8170))]
+    one = W.ref_encode({"hdr": {"id": 1, "answer": 0, "opCode": 0, "auth": 0, "trunc": 0, "recDes": 1, "recAv": 0,
+                                "authenticData": 0, "checkingDisabled": 0, "rCode": 0},
+                        "q": [[[b"example".hex(), b"com".hex()], 1, 1]], "an": [], "ns": [], "ar": []})
+    framed = len(one).to_bytes(2, "big") + one
+    for cuts in ([1], [1, 1], [2], [3], [], [1] * 40, [len(framed) - 1]):
+        cs.append({"tcp": True, "data": framed.hex(), "cuts": cuts})
+        cs.append({"tcp": True, "data": (framed + framed).hex(), "cuts": cuts})
+    for d in (b"\x00", b"\x00\x00", b"\x00\x05abc", b"\x00\x0c" + b"\xff" * 12, b"\x00\x02\xc0\x0c\x00"):
+        for cuts in ([1], []):
+            cs.append({"tcp": True, "data": d.hex(), "cuts": cuts})
     p = os.path.join(VERIF, "corpus/C33/seeds.json")
     if os.path.exists(p):
         cs += json.load(open(p))
@@ -164,22 +316,34 @@ def gen(rng, tier):
             if k < 0.9:
                 d = mutate(rng, d)
         cases.append({"data": d.hex(), "edns": rng.random() < 0.3})
+    for i in range(n // 3):
+        d = tcp_stream(rng)
+        cases.append({"tcp": True, "data": d.hex(), "cuts": tcp_cuts(rng, len(d))})
+    if tier == "thorough":
+        cases += [{"data": d.hex(), "edns": False} for d in long_chains((980, 1200, 2500, 6000, 8000))]
     return cases
 
 
 def to_coq(case):
     if len(case["data"]) > 4000:
         return None
-    return f"CRaw {W.coq_bytes(bytes.fromhex(case['data']))}"
+    if case.get("tcp"):
+        cuts = "[" + "; ".join(f"{k}%N" for k in case["cuts"]) + "]" if case["cuts"] else "(@nil N)"
+        return f"KTcp {W.coq_bytes(bytes.fromhex(case['data']))} {cuts}"
+    return f"KRaw {W.coq_bytes(bytes.fromhex(case['data']))}"
 
 
 def hist(case, obs):
+    if case.get("tcp"):
+        return "tcp:" + obs.rsplit("|", 1)[1] + (":1-byte-first-segment" if case["cuts"][:1] == [1] else "")
     main = obs.partition("#edns:")[0]
     return "raw:" + (main[2:] if main.startswith("E:") else "decoded")
 
 
 def shrink(case):
     d = case["data"]
+    if case.get("tcp") and len(case["cuts"]) > 1:
+        yield {**case, "cuts": case["cuts"][:1]}
     if len(d) > 2:
         yield {**case, "data": d[:-2]}
         yield {**case, "data": d[: len(d) // 4 * 2]}
@@ -194,8 +358,8 @@ SPEC = Spec(
     gen=gen,
     impl=impl,
     oracle=oracle,
-    coq_header="From TwLib Require Import PyInt WireIter WireDns.\nFrom C32 Require Import Run.",
-    coq_fn="run_show",
+    coq_header="From TwLib Require Import PyInt WireIter WireDns WireDnsShow.\nFrom C33 Require Import Model Run.",
+    coq_fn="run33",
     to_coq=to_coq,
     corpus=corpus,
     shrink=shrink,
@@ -203,7 +367,11 @@ SPEC = Spec(
     model_equal=model_equal,
     nontrivial=lambda c, o: len(c["data"]) >= 24,
     case_timeout=5.0,
-    rule="hand-made packets: pointer to itself, 2-cycle, rho-shaped chains (tail of 1-4 pointers into a cycle of 1-4 that "
+    rule="TCP path: DNSProtocol.dataReceived fed with 1-3 length-prefixed messages (valid, mutated, wrong / zero / 65535 "
+         "length prefix, truncated streams) or raw bytes, cut into segments with a ONE-byte first segment (25%), 1+1, 2, "
+         "3, byte-wise, whole, Fibonacci-sized; result compared with whole and byte-wise delivery. Long ACYCLIC "
+         "pointer chains of 300/1000/4000/8170 hops (thorough also 980..8000), forward and backward, ending in the root "
+         "label / a label / a pointer past the end / a pointer back into the chain. hand-made packets: pointer to itself, 2-cycle, rho-shaped chains (tail of 1-4 pointers into a cycle of 1-4 that "
          "does not contain the first target; from a question, an owner name and an rdata name; bare and behind labels), label-then-back, forward pointer into a cycle, a chain of "
          "200 pointers, pointers past the end / into the header, label length bytes 63..191 whole and cut, counts of "
          "65535 without content, every record type with an rdlength smaller than its layout (followed or not by more "
@@ -219,6 +387,6 @@ SPEC = Spec(
         "_EDNSMessage.fromStr (OPT option parsing on top of Message.fromStr) has no Coq model: exception class and "
         "time limit are checked on the real code only",
     ],
-    assumptions=["the decoder is entered through Message.fromStr, as DNSDatagramProtocol.datagramReceived and "
-                 "DNSProtocol.dataReceived do"],
+    assumptions=["the decoder is entered through Message.fromStr (as DNSDatagramProtocol.datagramReceived does) or "
+                 "through DNSProtocol.dataReceived (TCP framing, modelled in its repaired form)"],
 )
